@@ -1030,6 +1030,7 @@ func main() {
 			fmt.Fprintln(os.Stderr, "plugins table:", err)
 			os.Exit(1)
 		}
+		writeIfChanged(filepath.Join(*out, "ChanShape.lean"), chanShapeLean(chanShapes(*repo)))
 	} else {
 		js, _ := json.MarshalIndent(facts, "", " ")
 		fmt.Println(string(js))
